@@ -78,6 +78,57 @@ func (g *Gen) Time() string {
 	return fmt.Sprintf("20%02d-%02d-%02d %02d:%02d:%02d", d(), d(), d(), d(), d(), d())
 }
 
+// locWord: a flag word: single bits, pairs, boundary values, random.
+func (g *Gen) locWord() uint32 {
+	switch g.R.Intn(5) {
+	case 0:
+		return 1 << uint(g.R.Intn(32))
+	case 1:
+		return 1<<uint(g.R.Intn(32)) | 1<<uint(g.R.Intn(32))
+	}
+	return g.u32()
+}
+
+// LocItem: an in-domain T0x0200LocationItem built WITHOUT the parser.  The details structs are functions of the two
+// flag words; they are filled here from the standard's tables (JT/T 808 tables 24/25: alarm flag i = bit i in
+// declaration order; status flags = bits 0..7, the two-bit load field, bits 10..22), the load number as the code
+// reads it (2*bit8 + bit9).
+func (g *Gen) LocItem() model.T0x0200LocationItem {
+	it := model.T0x0200LocationItem{AlarmSign: g.locWord(), StatusSign: g.locWord(), Latitude: g.u32(), Longitude: g.u32(),
+		Altitude: g.u16(), Speed: g.u16(), Direction: g.u16(), DateTime: g.Time()}
+	av := reflect.ValueOf(&it.AlarmSignDetails).Elem()
+	for i := 0; i < av.NumField(); i++ {
+		av.Field(i).SetBool(it.AlarmSign>>uint(i)&1 == 1)
+	}
+	sv := reflect.ValueOf(&it.StatusSignDetails).Elem()
+	bit := 0
+	for i := 0; i < sv.NumField(); i++ {
+		f := sv.Field(i)
+		if f.Kind() == reflect.Bool {
+			f.SetBool(it.StatusSign>>uint(bit)&1 == 1)
+			bit++
+		} else {
+			f.SetUint(uint64(2*(it.StatusSign>>8&1) + it.StatusSign>>9&1))
+			bit += 2
+		}
+	}
+	return it
+}
+
+// LocBlock: the 28 bytes of a location block: random words (single bits, all ones, zero among them) and a BCD time.
+func (g *Gen) LocBlock() []byte {
+	w := g.locWord
+	var b []byte
+	for _, x := range []uint32{w(), w(), g.u32(), g.u32()} {
+		b = append(b, byte(x>>24), byte(x>>16), byte(x>>8), byte(x))
+	}
+	for i := 0; i < 3; i++ {
+		x := g.u16()
+		b = append(b, byte(x>>8), byte(x))
+	}
+	return append(b, utils.Time2BCD(g.Time())...)
+}
+
 // Bytes: n arbitrary bytes.
 func (g *Gen) Bytes(n int) []byte {
 	b := make([]byte, n)
@@ -329,6 +380,18 @@ func (g *Gen) Value(t *BodyType, ver int, d consts.ActiveSafetyType) (h BodyHand
 				SoftwareVersion: g.Padded(20, true), Version: consts.JT808Protocol2019}, true
 		}
 		return &model.T0x0102{AuthCode: g.Raw(g.lenChoice(40)), Version: consts.JT808Protocol2013}, true
+	case "T0x0200":
+		return &model.T0x0200{T0x0200LocationItem: g.LocItem()}, true
+	case "T0x0704":
+		n := 1 + g.listLen(40)
+		v := &model.T0x0704{Num: uint16(n), LocationType: g.u8()}
+		for i := 0; i < n; i++ {
+			v.Items = append(v.Items, model.T0x0704LocationItem{Len: 28, T0x0200LocationItem: g.LocItem()})
+		}
+		return v, true
+	case "T0x0801":
+		return &model.T0x0801{MultimediaID: g.u32(), MultimediaType: g.u8(), MultimediaFormatEncode: g.u8(), EventItemEncode: g.u8(),
+			ChannelID: g.u8(), T0x0200LocationItem: g.LocItem(), MultimediaPackage: g.Bytes(g.lenChoice(40))}, true
 	case "T0x0800":
 		return &model.T0x0800{MultimediaID: g.u32(), MultimediaType: g.u8(), MultimediaFormatEncode: g.u8(),
 			EventItemEncode: g.u8(), ChannelID: g.u8()}, true
